@@ -117,6 +117,16 @@ fn noise(rng: &mut Rng) -> Vec<u8> {
       _ => ext(9, &vec![b'x'; n]),
     };
   }
+  // messages of other extensions of the protocol: DHT port, fast extension, v2 hash messages
+  if rng.chance(1, 8) {
+    return match rng.below(5) {
+      0 => frame(9, &[0x1a, 0xe1]),
+      1 => frame(0x0d, &[0, 0, 0, 3]),
+      2 => frame(0x10, &[0, 0, 0, 1, 0, 0, 0, 0, 0, 0, 64, 0]),
+      3 => frame(0x11, &[0, 0, 0, 7]),
+      _ => frame(21 + rng.below(3) as u8, &rng.bytes(48)),
+    };
+  }
   match rng.below(7) {
     0 => vec![0, 0, 0, 0],                    // keep-alive
     1 => frame(1, &[]),                       // unchoke
@@ -134,6 +144,15 @@ fn honest(rng: &mut Rng, size: usize, label: &str) -> Script {
   let ut_id = rng.range(1, 255) as u8;
   let with_noise = rng.chance(2, 3);
   let mut inc = handshake(&target, true);
+  // other capability bits beside the extension-protocol bit (DHT, fast extension, anything): none of the client's business
+  match rng.below(6) {
+    0 => { inc[25] = 0x18; inc[27] = 0x05; }
+    1 => { for b in inc[20..28].iter_mut() { *b = 0xff; } }
+    2 => { inc[20] = 0x80; inc[27] = 0x01; }
+    _ => {}
+  }
+  // a peer that speaks only when spoken to: it sends its extended handshake after it has seen the client's
+  let reactive = rng.chance(1, 4);
   let mut push_noise = |inc: &mut Vec<u8>, rng: &mut Rng| {
     if with_noise {
       for _ in 0..rng.below(3) {
@@ -142,8 +161,15 @@ fn honest(rng: &mut Rng, size: usize, label: &str) -> Script {
     }
   };
   push_noise(&mut inc, rng);
+  let hs_end = if reactive { 68 } else { 0 };
+  if reactive {
+    inc.truncate(68); // no small talk before the handshakes are done
+  }
   inc.extend_from_slice(&ext_handshake(Some(ut_id), Some(served.len() as i128), rng.chance(1, 2)));
   let mut stages = Vec::new();
+  if hs_end != 0 {
+    stages.push(hs_end);
+  }
   for (k, chunk) in served.chunks(PIECE).enumerate() {
     stages.push(inc.len());
     push_noise(&mut inc, rng);
@@ -534,8 +560,18 @@ pub fn run(ctx: &Ctx) -> Report {
     }
     let mut payload = vec![0, 0, 7, 8, 0, 0, 0, 1, 0, 0, 0, 2];
     payload.extend_from_slice(&list);
-    let sim = if scenario == "tracker-silent" { Sim::start(false, vec![Resp::Raw(vec![1, 2, 3])], vec![]) } else { Sim::start(false, vec![Resp::Correct(vec![1, 2, 3, 4, 5, 6, 7, 8])], vec![Resp::Correct(payload)]) };
-    let link = format!("magnet:?xt=urn:btih:{}&tr=udp://127.0.0.1:{}/announce", hex(&good.target), sim.addr.port());
+    // (now and then the tracker misses the first datagram of each request and answers the retransmission)
+    let deaf_at_first = !bad && rng.chance(1, 6);
+    let sim = if scenario == "tracker-silent" {
+      Sim::start(false, vec![Resp::Raw(vec![1, 2, 3])], vec![])
+    } else if deaf_at_first {
+      Sim::start(false, vec![Resp::Drop, Resp::Correct(vec![1, 2, 3, 4, 5, 6, 7, 8])], vec![Resp::Drop, Resp::Correct(payload)])
+    } else {
+      Sim::start(false, vec![Resp::Correct(vec![1, 2, 3, 4, 5, 6, 7, 8])], vec![Resp::Correct(payload)])
+    };
+    // (a hybrid link names a v2 topic first; the v1 topic is the one that counts here)
+    let hybrid = rng.chance(1, 3);
+    let link = format!("magnet:?{}xt=urn:btih:{}&tr=udp://127.0.0.1:{}/announce", if hybrid { "xt=urn:btmh:1220da39a3ee5e6b4b0d3255bfef95601890afd80709da39a3ee5e6b4b0d3255bfef9560&" } else { "" }, hex(&good.target), sim.addr.port());
     let sb = Sandbox::new(&ctx.work, "c11");
     let before = snapshot(&sb.root);
     let explicit = rng.chance(1, 2);
@@ -545,13 +581,19 @@ pub fn run(ctx: &Ctx) -> Report {
     }
     let out = Cmd::new(&ctx.imdl, &args).cwd(&sb.root).timeout_s(60).run();
     let after = snapshot(&sb.root);
-    let _ = sim.finish();
+    let datagrams = sim.finish();
+    // what from-link tells the tracker is an announce like any other: this torrent, not yet complete
+    for d in datagrams.iter().filter(|d| d.data.len() == 98) {
+      if d.data[16..36] != good.target || d.data[64..72] == [0; 8] || d.data[8..12] != [0, 0, 0, 1] {
+        report.fail("property", "from-link-announce-request", json!({"e2e": scenario, "n": i}), format!("announce datagram sent by from-link: {}", hex(&d.data)));
+      }
+    }
     for p in peers {
       // peers that were never contacted are still blocked in accept(): poke them
       let _ = std::net::TcpStream::connect_timeout(&p.addr, std::time::Duration::from_millis(200));
       let _ = p.finish();
     }
-    let case = json!({"e2e": scenario, "size": served.len(), "explicit_output": explicit, "n": i});
+    let case = json!({"e2e": scenario, "size": served.len(), "explicit_output": explicit, "n": i, "hybrid_link": hybrid, "tracker_misses_first_datagrams": deaf_at_first});
     report.case(Some(fnv(case.to_string().as_bytes())));
     report.hit(&format!("e2e:{scenario}"));
     let new_files: Vec<&String> = after.keys().filter(|k| !before.contains_key(*k)).collect();
@@ -567,6 +609,9 @@ pub fn run(ctx: &Ctx) -> Report {
     } else {
       let written = std::fs::read(sb.path(&want_name)).unwrap_or_default();
       let span = crate::bencode::find_span(&written, b"info").map(|(a, b)| written[a..b].to_vec());
+      if crate::bencode::decode(&written).is_err() {
+        report.fail("property", "from-link-info-not-identical", case.clone(), "the written file is not one canonical bencode value with nothing after it".into());
+      }
       if span.as_deref() != Some(served.as_slice()) {
         report.fail("property", "from-link-info-not-identical", case, "the written info dictionary is not byte-identical to the one served".into());
       }
